@@ -715,13 +715,22 @@ class MatchKeySignature(MatchParameter):
         # pdb.set_trace()
         ksinfo = key_signature_pattern.search(kstr)
 
-        if ksinfo is None:
+        # names like "Am", "Bb" or "F#m" also match the pattern of the older
+        # formats ("A min", "Bb Maj"), with the "m" or "b" taken for the mode
+        if ksinfo is None or ksinfo.group("mode1").lower() not in (
+            "maj",
+            "major",
+            "min",
+            "minor",
+        ):
             fmt = "v1.0.0"
-            ksinfo = kstr.split("/")
-            fifths1, mode1 = key_name_to_fifths_mode(ksinfo[0].upper())
+            # only the step is case insensitive: "b" (flat) and "m" (minor)
+            # are lower case in the key names written by `fifths_mode_to_key_name`
+            ksinfo = [k[:1].upper() + k[1:] for k in kstr.split("/")]
+            fifths1, mode1 = key_name_to_fifths_mode(ksinfo[0])
             fifths2, mode2 = None, None
             if len(ksinfo) == 2:
-                fifths2, mode2 = key_name_to_fifths_mode(ksinfo[1].upper())
+                fifths2, mode2 = key_name_to_fifths_mode(ksinfo[1])
         else:
             fmt = "v0.3.0"
             step1, alter1, mode1, step2, alter2, mode2 = ksinfo.groups()
